@@ -29,6 +29,7 @@ type c05Op struct {
 	Ans  string   `json:"ans"`
 	Gw   int      `json:"gw"`
 	Err  string   `json:"err,omitempty"`
+	Vid  string   `json:"vid,omitempty"` // x-amz-version-id of an acknowledged write (versioned stage)
 	raw  gw.Resp
 }
 
@@ -56,7 +57,9 @@ func c05Stress(a lib.Args, res *lib.Result) error {
 			strat, _ := in["strategy"].(string)
 			ans, _ := in["answer"].(string)
 			res.Count("replay-answer", true, "replay:answer")
-			if strings.HasPrefix(ans, "err") {
+			if sig, _ := in["signature"].(string); sig != "" && strings.HasPrefix(ans, "err") {
+				res.Fail(lib.Failure{Kind: "property", Signature: sig, What: "recorded answer of a free-running phase: " + ans, Input: in, Impl: ans})
+			} else if strings.HasPrefix(ans, "err") {
 				res.Fail(lib.Failure{Kind: "property", Signature: "conc:request-failed:" + kind + ":" + strat, What: "recorded answer of a free-running phase: " + ans, Input: in, Impl: ans})
 			}
 			return nil
@@ -64,13 +67,15 @@ func c05Stress(a lib.Args, res *lib.Result) error {
 		return nil
 	}
 	var wg sync.WaitGroup
-	errs := make([]error, 2)
+	errs := make([]error, 4)
 	for si, strat := range []string{"otmp", "mktemp"} {
-		wg.Add(1)
-		go func(si int, strat string) {
-			defer wg.Done()
-			errs[si] = c05StressOn(a, res, strat)
-		}(si, strat)
+		for vi, versioned := range []bool{false, true} {
+			wg.Add(1)
+			go func(n int, strat string, versioned bool) {
+				defer wg.Done()
+				errs[n] = c05StressOn(a, res, strat, versioned)
+			}(2*si+vi, strat, versioned)
+		}
 	}
 	wg.Wait()
 	for _, e := range errs {
@@ -81,8 +86,16 @@ func c05Stress(a lib.Args, res *lib.Result) error {
 	return nil
 }
 
-func c05StressOn(a lib.Args, res *lib.Result, strat string) error {
-	cfg, err := mustStorage(a, "c05s-"+strat, false, false, func(c *gw.Config) { c.NoOTmp = strat == "mktemp" })
+// c05StressOn: with `versioned` the bucket has versioning enabled (every overwrite first archives the
+// current file into the versioning directory): the same oracles judge the reads of the key, and after
+// each phase every version id a write was acknowledged with is read back — it must be the complete
+// body, ETag and metadata of exactly one write.
+func c05StressOn(a lib.Args, res *lib.Result, strat string, versioned bool) error {
+	name := "c05s-" + strat
+	if versioned {
+		name = "c05v-" + strat
+	}
+	cfg, err := mustStorage(a, name, versioned, false, func(c *gw.Config) { c.NoOTmp = strat == "mktemp" })
 	if err != nil {
 		return err
 	}
@@ -115,6 +128,15 @@ func c05StressOn(a lib.Args, res *lib.Result, strat string) error {
 		perClient, rounds = 150, 6
 	}
 	phases := []c05Phase{{"overwrite-only", false, true}, {"overwrite-only", false, false}, {"with-deletes", true, true}, {"with-deletes", true, false}}
+	label := strat
+	if versioned {
+		if rsp := do(0, gw.Req{Method: "PUT", Path: "/bkt", Query: "versioning=", Body: []byte("<VersioningConfiguration><Status>Enabled</Status></VersioningConfiguration>")}); rsp.Status != 200 {
+			return fmt.Errorf("enable versioning: %d %s", rsp.Status, rsp.Body)
+		}
+		label = strat + "+versioned"
+		rounds = (rounds + 1) / 2
+		phases = []c05Phase{{"versioned-overwrite-only", false, false}, {"versioned-with-deletes", true, false}}
+	}
 	var idCtr int64 = 1000
 	rnd := lib.NewRandStream(a.Seed, int64(77+len(strat)))
 	for round := 0; round < rounds; round++ {
@@ -189,6 +211,9 @@ func c05StressOn(a lib.Args, res *lib.Result, strat string) error {
 						rsp := do(g, q)
 						op.Ret = int64(time.Since(t0))
 						op.raw = rsp // canonicalised once all writes of the phase are known
+						if rsp.Status == 200 && q.Method != "GET" && q.Method != "HEAD" {
+							op.Vid = rsp.Headers.Get("x-amz-version-id")
+						}
 						hist[c] = append(hist[c], op)
 					}
 				}(c, cr)
@@ -198,8 +223,45 @@ func c05StressOn(a lib.Args, res *lib.Result, strat string) error {
 			for _, h := range hist {
 				ops = append(ops, h...)
 			}
-			if err := c05JudgeHistory(a, res, strat, ph, w0, ops); err != nil {
+			var vreads []gw.Resp
+			if versioned {
+				// quiescent: read back every version id a write was acknowledged with
+				for i := range ops {
+					if ops[i].Vid != "" {
+						vreads = append(vreads, do(0, gw.Req{Method: "GET", Path: path, Query: "versionId=" + ops[i].Vid}))
+					} else {
+						vreads = append(vreads, gw.Resp{})
+					}
+				}
+			}
+			vops := append([]c05Op(nil), ops...)
+			// what the gateways logged for the requests they answered 500 (distinct lines, digits folded)
+			var ierr []string
+			seenLine := map[string]bool{}
+			for _, g := range gws {
+				for _, l := range strings.Split(g.Log.String(), "\n") {
+					if !strings.Contains(l, "Internal Error") {
+						continue
+					}
+					k := regexp.MustCompile(`[0-9A-Za-z]{20,}|\d+`).ReplaceAllString(l, "#")
+					if !seenLine[k] && len(ierr) < 12 {
+						seenLine[k] = true
+						ierr = append(ierr, l)
+					}
+				}
+			}
+			for i := range ops {
+				if ops[i].raw.Status >= 500 {
+					ops[i].Err = strings.Join(ierr, " || ")
+				}
+			}
+			if err := c05JudgeHistory(a, res, label, ph, w0, ops); err != nil {
 				return err
+			}
+			if versioned {
+				if err := c05JudgeVersions(a, res, label, ph, w0, vops, vreads); err != nil {
+					return err
+				}
 			}
 		}
 	}
@@ -221,7 +283,7 @@ func c05JudgeHistory(a lib.Args, res *lib.Result, strat string, ph c05Phase, w0 
 	}
 	for i := range ops {
 		ops[i].Ans = c05View(c05Req{Kind: ops[i].Kind, W: ops[i].W}, ops[i].raw, writes, kinds)
-		if ops[i].raw.Status >= 500 {
+		if ops[i].raw.Status >= 500 && ops[i].Err == "" {
 			ops[i].Err = string(ops[i].raw.Body)
 		}
 		ops[i].raw = gw.Resp{}
@@ -381,6 +443,98 @@ func c05JudgeHistory(a lib.Args, res *lib.Result, strat string, ph c05Phase, w0 
 	_ = nMissing
 	_ = nTorn
 	return nil
+}
+
+// c05JudgeVersions: every version id a write of the phase was acknowledged with (nothing deletes by
+// version id) must read back as the complete body, ETag and metadata of exactly one write — that write.
+func c05JudgeVersions(a lib.Args, res *lib.Result, label string, ph c05Phase, w0 c05Write, ops []c05Op, reads []gw.Resp) error {
+	writes := []c05Write{w0}
+	kinds := map[int]string{w0.ID: "P"}
+	byID := map[int]c05Write{w0.ID: w0}
+	for _, o := range ops {
+		if o.Kind == "P" || o.Kind == "C" || o.Kind == "M" {
+			writes = append(writes, o.W)
+			kinds[o.W.ID] = o.Kind
+			byID[o.W.ID] = o.W
+		}
+	}
+	specOf := func(id int) string {
+		k := kinds[id]
+		if k == "C" {
+			k = "P"
+		}
+		return byID[id].spec(k)
+	}
+	var lines, views []string
+	var idx []int
+	vidOwner := map[string]int{}
+	for i, o := range ops {
+		if o.Vid == "" || !(o.Kind == "P" || o.Kind == "C" || o.Kind == "M") {
+			continue
+		}
+		in := map[string]interface{}{"mode": "stress-answer", "kind": "V", "strategy": label, "phase": ph.name, "write": o.W, "write_kind": o.Kind, "version_id": o.Vid}
+		if prev, dup := vidOwner[o.Vid]; dup {
+			in["answer"] = fmt.Sprintf("err:two writes (%d, %d) were acknowledged with the same version id", prev, o.W.ID)
+			res.Fail(lib.Failure{Kind: "property", Signature: c05Sig(in, "conc:versioned:same-version-id-twice"), What: "free-running, versioned bucket: two acknowledged writes carry the same version id", Input: in, Impl: o.Vid})
+			continue
+		}
+		vidOwner[o.Vid] = o.W.ID
+		view := c05View(c05Req{Kind: "G"}, reads[i], writes, kinds)
+		in["answer"] = view
+		if !strings.HasPrefix(view, "read(") {
+			in["answer"] = "err:" + view
+			res.Count(fmt.Sprintf("vread|%s|%s|%d", label, ph.name, o.W.ID), true, "stress:"+label+":V:"+strings.SplitN(view, ":", 2)[0])
+			res.Fail(lib.Failure{Kind: "property", Signature: c05Sig(in, "conc:versioned:version-not-retrievable:"+strings.SplitN(view, ":", 2)[0]), What: "free-running, versioned bucket: the version id a write was acknowledged with cannot be read although nothing deleted it by id", Input: in, Impl: view})
+			continue
+		}
+		seen := map[int]bool{}
+		var ws []string
+		for _, m := range reViewIDs.FindAllStringSubmatch(view, -1) {
+			id, _ := strconv.Atoi(m[1])
+			if _, ok := byID[id]; ok && !seen[id] {
+				seen[id] = true
+				ws = append(ws, specOf(id))
+			}
+		}
+		if len(ws) == 0 {
+			ws = []string{"0.0.0"}
+		}
+		lines = append(lines, fmt.Sprintf("conc judge G %s %s", strings.Join(ws, ","), view))
+		views = append(views, view)
+		idx = append(idx, i)
+	}
+	if len(lines) == 0 {
+		return nil
+	}
+	out, err := a.Driver.Ask(lines)
+	if err != nil {
+		return err
+	}
+	for n, i := range idx {
+		o := ops[i]
+		in := map[string]interface{}{"mode": "stress-answer", "kind": "V", "strategy": label, "phase": ph.name, "write": o.W, "write_kind": o.Kind, "version_id": o.Vid, "answer": views[n]}
+		cls := "ok"
+		switch {
+		case strings.HasPrefix(out[n], "bad:"):
+			cls = "torn"
+			c := strings.SplitN(strings.TrimPrefix(out[n], "bad:"), "+", 2)[0]
+			in["answer"] = "err:" + views[n]
+			res.Fail(lib.Failure{Kind: "property", Signature: c05Sig(in, "conc:versioned:version-read:"+c), What: "free-running, versioned bucket: the version a write was acknowledged with reads back as a mixture or a prefix (" + out[n] + ")", Input: in, Impl: views[n]})
+		case out[n] == "ok" && !strings.Contains(views[n], fmt.Sprintf("etag=%d,", o.W.ID)):
+			cls = "other-write"
+			in["answer"] = "err:" + views[n]
+			res.Fail(lib.Failure{Kind: "property", Signature: c05Sig(in, "conc:versioned:version-is-another-write"), What: "free-running, versioned bucket: the version id a write was acknowledged with reads back as the complete state of a different write", Input: in, Impl: views[n]})
+		case out[n] != "ok":
+			cls = out[n]
+		}
+		res.Count(fmt.Sprintf("vread|%s|%s|%d", label, ph.name, o.W.ID), true, "stress:"+label+":V:"+cls)
+	}
+	return nil
+}
+
+func c05Sig(in map[string]interface{}, sig string) string {
+	in["signature"] = sig
+	return sig
 }
 
 func c05ReplayHistory(a lib.Args, res *lib.Result, in map[string]interface{}) error {
